@@ -51,6 +51,7 @@ def _explore_case(args):
     mod = __import__(modname, fromlist=['x'])
     if hasattr(mod, 'setup_symbolic'):
         mod.setup_symbolic()
+    E.RATIONALIZE[0] = bool(case.get('rationalize_floats', opts.get('rationalize_floats', False)))
     eng = E.Engine(feas_timeout_ms=opts.get('feas_timeout_ms', 3000),
                    assert_timeout_ms=opts.get('assert_timeout_ms', 60000),
                    max_paths=opts.get('max_paths', 200000),
